@@ -69,7 +69,7 @@ fn own_batches(prop: &str) -> Vec<Batch> {
 pub fn expected_probes(prop: &str) -> &'static [&'static str] {
     match prop {
         "C01" => &["C01.expired_lease_reissued_to_other", "C09.client_holds_several_leases", "C18.recovered_after_kill", "config.swapped_live", "clock.backward_step", "restart.clean"],
-        "C02" => &["C02.pool_drained", "C02.last_host_address_issued", "C02.reserved_host_served", "C02.nested_policy_tree", "C02.request_names_reserved_address", "C09.refused_no_address"],
+        "C02" => &["C02.pool_drained", "C02.last_host_address_issued", "C02.reserved_host_served", "C02.nested_policy_tree", "C02.policy_with_match_option", "C02.request_options_select_the_pool", "C02.request_names_reserved_address", "C09.refused_no_address"],
         "C09" => &["C09.client_holds_several_leases", "C09.refused_no_address", "config.swapped_live", "clock.backward_step"],
         "C10" => &["C10.clamped_at_max", "C10.clamped_at_min", "clock.backward_step", "restart.clean"],
         "C12" => &["C12.broadcast_bit_set", "C12.other_flag_bits_set", "C12.tracer_option_over_255", "C12.request_with_split_options"],
@@ -81,7 +81,7 @@ pub fn expected_probes(prop: &str) -> &'static [&'static str] {
         "C03" => &["C03.complete_relayed_answer", "C06.served_from_cache", "C04.truncated_response"],
         "C04" => &["C04.truncated_response", "C14.response_over_16k", "C14.many_compression_pointers"],
         "C06" => &["C06.served_from_cache", "C06.hit_exactly_at_ttl", "C06.query_aimed_at_ttl_boundary", "C06.near_miss_key_in_same_run", "C06.repeated_key_resolved_upstream"],
-        "C07" => &["C07.several_queries_on_one_client_connection", "C07.query_aimed_at_upstream_tcp_idle_timers", "C07.several_responses_seen", "C07.servfail_after_fault", "C07.query_to_secondary_local_address", "C07.response_sent_from_ipv4_only_listener", "in.udp.no_socket"],
+        "C07" => &["C07.response_from_per_address_socket_of_bind_addresses_interfaces", "C07.several_queries_on_one_client_connection", "C07.query_aimed_at_upstream_tcp_idle_timers", "C07.several_responses_seen", "C07.servfail_after_fault", "C07.query_to_secondary_local_address", "C07.response_sent_from_ipv4_only_listener", "in.udp.no_socket"],
         "C14" => &["C14.response_over_16k", "C14.many_compression_pointers"],
         "C15" => &["C15.forge_nxdomain_route", "C15.forward_route", "C15.no_route", "C15.no_recursion_desired_on_forward_route"],
         "C16" => &[
